@@ -127,8 +127,8 @@ var props = map[string]*prop{
 		level: "exploration",
 		jobs: []job{
 			regress,
-			{name: "seed-gomaxprocs1", run: "^TestC04_Seed$", env: []string{"GOMAXPROCS=1"}, checks: [2]int{60, 1000}},
-			{name: "seed-int32", run: "^TestC04_Seed$", arch: "386", shards: [2]int{2, 4}, checks: [2]int{120, 2000}},
+			{name: "seed-gomaxprocs1", run: "^TestC04_Seed$", env: []string{"GOMAXPROCS=1"}, checks: [2]int{60, 300}},
+			{name: "seed-int32", run: "^TestC04_Seed$", arch: "386", shards: [2]int{2, 4}, checks: [2]int{120, 500}},
 			{name: "concurrent", run: "^TestC04_Concurrent$", weight: 8},
 			{name: "seed", run: "^TestC04_Seed$", shards: [2]int{8, 16}, checks: [2]int{200, 5000}},
 		},
